@@ -586,3 +586,37 @@ def sibling_hash_tables(ctx, rid, modnames=None):
                     found="; ".join(bad)[:300], key_extra=f"{m.relpath}:{sorted(map(str, keys))}")
     if n < 1:
         raise AnalysisError("no digest algorithm table found in the repository")
+
+
+def no_refusal_on_grid(ctx, rid, fi, grids, inline_depth=2, what="legal values"):
+    """No raise of the function (helpers inlined to `inline_depth`) is selected by legal values of its numeric parameters.
+    Only guards that mention a grid parameter and are evaluable from the grid alone are considered (comparisons, arithmetic, masks:
+    a finite set of orderings / bit patterns, sampled at the boundaries); a guard that also depends on other data is left to the
+    specific rules.  Catches range checks with a wrong bound (`1 << 32 - 1`), masks applied to negative intermediates, etc."""
+    from itertools import product
+    from sa.absint import Evaluator as _Ev
+    from sa.teval import Raised, Unknown, teval
+    R = ctx.report
+    if rid not in R.rules:
+        R.rule(rid, 1, "no refusal is selected by a legal value of a numeric parameter")
+    names = list(grids)
+    syms = {n: Sym("param:" + n) for n in names}
+    refused = []
+    for o in _Ev(ctx.repo, inline_depth=inline_depth).outcomes(fi):
+        if o.kind != "raise":
+            continue
+        rel = [c for c in o.conds if any(s_ in syms.values() for s_ in subterms(c))]
+        if not rel:
+            continue
+        used = [n for n in names if any(syms[n] in list(subterms(c)) for c in rel)]
+        for point in product(*[grids[n] for n in used]):
+            env = {syms[n]: v for n, v in zip(used, point)}
+            try:
+                if all(bool(teval(c, env)) for c in rel):
+                    refused.append((dict(zip(used, point)), o))
+                    break
+            except (Unknown, Raised, Exception):
+                break
+    R.check(rid, not refused, ctx.fq(fi), mod=fi.module, node=refused[0][1].node if refused else fi.node, function=ctx.fq(fi),
+            expected=f"every combination of {what} is processed", found=f"refused: { {k: hex(v) if isinstance(v, int) and v > 255 else v for k, v in refused[0][0].items()} }" if refused else "",
+            key_extra=fi.qualname)
